@@ -1,4 +1,4 @@
-import CfrVerif.Props.C08
+import CfrVerif.Proofs.ParamSemantics
 import CfrVerif.Proofs.GameWF
 import CfrVerif.Model.Vanilla
 import CfrVerif.Model.External
